@@ -213,6 +213,18 @@ CHECKS["C14"] = dict(
          "therefore solver-chosen enumeration, stated as such. One recorded finding (Feb 29 line without year raises ValueError). "
          "Outside: valid JSON scalars, the ~280 concrete parsers built on these bases.")
 
+CHECKS["C11"] = dict(
+    text="Bounded symbolic execution of the real write -> serialize -> (JSON) -> deserialize -> load chain for the datasource, "
+         "text-file, command, container-command and container-file providers and every save-as form on 1-3 symbolic lines "
+         "(printable ASCII, tab, form feed, U+00E9, U+2028; no line breaks) with the file layer of spec_factory replaced by an "
+         "in-memory store that follows the text-mode contract: loaded lines equal persisted lines up to one trailing empty line, "
+         "command / arguments / relative location survive; plus fault enumeration with the real Hydration on a scratch directory: "
+         "four components (one multi-output, one failed), 9 kinds of corruption on any subset of three metadata entries under four "
+         "directory listing orders - hydrate never raises, exactly the intact entries load, the failed component is persisted "
+         "with its errors.",
+    note="O2 is solver-chosen enumeration of 9^3 x 4 fault vectors, stated as such. Outside: UTF-8 codec, json, RawFileProvider's "
+         "cp, very long lines, pool-based marshalling.")
+
 NOT_APPLICABLE = {
 }
 
